@@ -283,6 +283,9 @@ func checkC16(w *World, r *Report) {
 		for _, l := range rangeLoops(fn) {
 			if l.Over != nil && loadOfField(l.Over, "VestingPools", nil) {
 				n++
+				if loopEarlyExit(l) != nil {
+					okAll = false
+				}
 				if !loopBodyMustPass(l, func(b *ssa.BasicBlock) bool {
 					return blockHasCall(b, func(c *ssa.Call) bool { bi, ok := c.Common().Value.(*ssa.Builtin); return ok && bi.Name() == "append" })
 				}) {
